@@ -27,15 +27,22 @@ From Yv Require Import Common.Base.
 (* ------------------------------------------------------------------------ *)
 (* The kernel part: children and the parent's SIGCHLD state. *)
 
+(* what a child does: local work, or a signal to one of its siblings (or itself) *)
+Inductive sig := SStop | SCont.
+Inductive cact := AWork | AKill (s : sig) (t : nat).
+
 Inductive cstate :=
-  | Running (w : nat)     (* w local steps left before the exit *)
-  | Zombie                (* exited, state change not yet reported (state_has_changed) *)
-  | Reaped.               (* exited and reported by wait *)
+  | Running (p : list cact)   (* the actions left before the exit *)
+  | Stopped (p : list cact)   (* suspended by SIGSTOP; resumes with SIGCONT *)
+  | Zombie                    (* exited, not yet reported by wait *)
+  | Reaped.                   (* exited and reported by wait *)
 
 Record child := mkChild {
   cs : cstate;
   code : N;               (* the exit status this child ends with *)
-  reaps : nat }.          (* how many times wait has reported its exit *)
+  reaps : nat;            (* how many times wait has reported its exit *)
+  chg : bool }.           (* alive child: a stop / continuation not yet reported
+                             (Process::state_has_changed); false once exited *)
 
 Record kern := mkKern {
   kids : list child;      (* child i has process ID 3 + i *)
@@ -71,8 +78,8 @@ Definition k_take_caught (k : kern) : kern :=
   mkKern (kids k) (catching k) (blocked k) (pending k) 0.
 
 (* fork: a new running child *)
-Definition k_fork (k : kern) (w : nat) (st : N) : kern * nat :=
-  (set_kids k (kids k ++ [mkChild (Running w) st 0]), length (kids k)).
+Definition k_fork (k : kern) (p : list cact) (st : N) : kern * nat :=
+  (set_kids k (kids k ++ [mkChild (Running p) st 0 false]), length (kids k)).
 
 Fixpoint upd {A} (l : list A) (i : nat) (x : A) : list A :=
   match l, i with
@@ -81,24 +88,56 @@ Fixpoint upd {A} (l : list A) (i : nat) (x : A) : list A :=
   | y :: t, S i => y :: upd t i x
   end.
 
-(* one step of child i: local work, or exit (set_state + raise_sigchld) *)
+(* SendSignal::kill(pid of child t, SIGSTOP / SIGCONT): Process::raise_signal
+   changes the state of a live target, marks the change as unreported and
+   the parent gets SIGCHLD; a signal that changes nothing has no effect.
+   (A signal to a terminated process has no effect either: POSIX.) *)
+Definition k_signal (k : kern) (s : sig) (t : nat) : kern :=
+  match nth_error (kids k) t with
+  | Some c =>
+      match s, cs c with
+      | SStop, Running p =>
+          raise_chld (set_kids k (upd (kids k) t (mkChild (Stopped p) (code c) (reaps c) true)))
+      | SCont, Stopped p =>
+          raise_chld (set_kids k (upd (kids k) t (mkChild (Running p) (code c) (reaps c) true)))
+      | _, _ => k
+      end
+  | None => k
+  end.
+
+(* one step of child i: local work, a signal, or exit (set_state + raise_sigchld);
+   a stopped child does not run *)
 Definition child_step (k : kern) (i : nat) : option kern :=
   match nth_error (kids k) i with
   | Some c =>
       match cs c with
-      | Running (S w) => Some (set_kids k (upd (kids k) i (mkChild (Running w) (code c) (reaps c))))
-      | Running O => Some (raise_chld (set_kids k (upd (kids k) i (mkChild Zombie (code c) (reaps c)))))
+      | Running (AWork :: r) =>
+          Some (set_kids k (upd (kids k) i (mkChild (Running r) (code c) (reaps c) (chg c))))
+      | Running (AKill s t :: r) =>
+          Some (k_signal (set_kids k (upd (kids k) i (mkChild (Running r) (code c) (reaps c) (chg c))))
+                         s t)
+      | Running [] =>
+          Some (raise_chld (set_kids k (upd (kids k) i (mkChild Zombie (code c) (reaps c) false))))
       | _ => None
       end
   | None => None
   end.
 
 Inductive target := TPid (i : nat) | TAny.
-Inductive wres := WSome (i : nat) (st : N) | WNone | WEchild.
+Inductive wres :=
+  | WSome (i : nat) (st : N)     (* child i has exited with st *)
+  | WStop (i : nat)              (* child i has been stopped *)
+  | WCont (i : nat)              (* child i has been continued *)
+  | WNone | WEchild.
 
 Definition is_zombie (c : child) : bool := match cs c with Zombie => true | _ => false end.
-Definition is_running (c : child) : bool := match cs c with Running _ => true | _ => false end.
 Definition is_reaped (c : child) : bool := match cs c with Reaped => true | _ => false end.
+(* ProcessState::is_alive: running or stopped *)
+Definition is_alive (c : child) : bool :=
+  match cs c with Running _ | Stopped _ => true | _ => false end.
+(* Process::state_has_changed *)
+Definition has_news_c (c : child) : bool :=
+  match cs c with Zombie => true | Running _ | Stopped _ => chg c | Reaped => false end.
 
 Fixpoint find_from {A} (f : A -> bool) (l : list A) (i : nat) : option (nat * A) :=
   match l with
@@ -106,27 +145,35 @@ Fixpoint find_from {A} (f : A -> bool) (l : list A) (i : nat) : option (nat * A)
   | x :: t => if f x then Some (i, x) else find_from f t (S i)
   end.
 
-Definition reap (c : child) : child := mkChild Reaped (code c) (S (reaps c)).
+Definition reap (c : child) : child := mkChild Reaped (code c) (S (reaps c)) false.
+Definition seen (c : child) : child := mkChild (cs c) (code c) (reaps c) false.
+
+(* Process::take_state on child i *)
+Definition report (k : kern) (i : nat) (c : child) : wres * kern :=
+  match cs c with
+  | Zombie => (WSome i (code c), set_kids k (upd (kids k) i (reap c)))
+  | Stopped _ => (WStop i, set_kids k (upd (kids k) i (seen c)))
+  | Running _ => (WCont i, set_kids k (upd (kids k) i (seen c)))
+  | Reaped => (WEchild, k)
+  end.
 
 (* VirtualSystem::wait + child_to_wait_for (WNOHANG semantics: never blocks).
    -1: a child whose state has changed first; otherwise "none yet" if a child
-   is alive; otherwise ECHILD. *)
+   is alive; otherwise ECHILD.  A state change is an exit, a stop or a
+   continuation. *)
 Definition kwait (k : kern) (t : target) : wres * kern :=
   match t with
   | TPid i =>
       match nth_error (kids k) i with
       | Some c =>
-          match cs c with
-          | Zombie => (WSome i (code c), set_kids k (upd (kids k) i (reap c)))
-          | Running _ => (WNone, k)
-          | Reaped => (WEchild, k)
-          end
+          if has_news_c c then report k i c
+          else if is_alive c then (WNone, k) else (WEchild, k)
       | None => (WEchild, k)
       end
   | TAny =>
-      match find_from is_zombie (kids k) 0 with
-      | Some (i, c) => (WSome i (code c), set_kids k (upd (kids k) i (reap c)))
-      | None => if existsb is_running (kids k) then (WNone, k) else (WEchild, k)
+      match find_from has_news_c (kids k) 0 with
+      | Some (i, c) => report k i c
+      | None => if existsb is_alive (kids k) then (WNone, k) else (WEchild, k)
       end
   end.
 
@@ -134,8 +181,8 @@ Definition kwait (k : kern) (t : target) : wres * kern :=
 (* The parent: commands and the micro-steps of their execution. *)
 
 Inductive cmd :=
-  | CAsync (w : nat) (st : N)                     (* { work w; exit st; } &        *)
-  | CPipe (l : list (nat * N)) (pipefail : bool)  (* c1 | c2 | ... ; one element: ( c1 ) *)
+  | CAsync (p : list cact) (st : N)               (* { actions p; exit st; } &     *)
+  | CPipe (l : list (list cact * N)) (pipefail : bool)  (* c1 | c2 | ... ; one element: ( c1 ) *)
   | CWait (t : option nat)                        (* wait  /  wait PID-of-child-t  *)
   | CProbe.                                       (* record $? and $!              *)
 
@@ -154,7 +201,7 @@ Inductive cont :=
 
 Inductive pc :=
   | PIdle                                              (* fetch the next command *)
-  | PFork (todo : list (nat * N)) (pids : list nat) (pipefail : bool)
+  | PFork (todo : list (list cact * N)) (pids : list nat) (pipefail : bool)
   | PWait (m : wstage) (t : target) (k : cont)
   | PBuiltin (t : option nat)                          (* the wait built-in looks at the job list *)
   | PReap                                              (* update_all_subshell_statuses *)
@@ -263,6 +310,14 @@ Definition parent_step (s : state) : option state :=
           | KBuiltin t0 =>
               Some (mkState k' (prog s) (PBuiltin t0) (status s) (lastbg s) j' (trace s))
           end
+      | (WStop _, k') | (WCont _, k') =>
+          (* a stop or a continuation: without job control the waiter goes on
+             waiting (wait_for_subshell_to_halt / _to_finish / start_and_wait loop;
+             the wait built-in re-examines the job) *)
+          match c with
+          | KPipe _ _ _ _ => Some (set_at s k' (PWait SInst t c))
+          | KBuiltin t0 => Some (set_at s k' (PBuiltin t0))
+          end
       | (WNone, _) => Some (set_at s k (PWait SEnter t c))
       | (WEchild, _) =>
           match c with
@@ -301,6 +356,7 @@ Definition parent_step (s : state) : option state :=
       match kwait k TAny with
       | (WSome i st, k') =>
           Some (mkState k' (prog s) PReap (status s) (lastbg s) (job_update (jobs s) i st) (trace s))
+      | (WStop _, k') | (WCont _, k') => Some (set_at s k' PReap)
       | (_, _) => Some (set_at s k PIdle)
       end
   | PExit | PPanic => None
@@ -341,7 +397,7 @@ Record rstate := mkR {
 
 Definition rstate0 : rstate := mkR 0 [] 0%N None [].
 
-Fixpoint pipe_result (l : list (nat * N)) (final : N) (pf : bool) : N :=
+Fixpoint pipe_result (l : list (list cact * N)) (final : N) (pf : bool) : N :=
   match l with
   | [] => final
   | (_, st) :: t => pipe_result t (pipe_status final st pf) pf
@@ -378,10 +434,12 @@ Definition ref_cmd (r : rstate) (c : cmd) : rstate :=
 Definition ref_run (p : list cmd) : rstate := fold_left ref_cmd p rstate0.
 
 (* An upper bound on the length of every run (Proofs.measure). *)
-Definition spec_cost (x : nat * N) : nat := 24 + fst x.
+Definition act_cost (a : cact) : nat := match a with AWork => 1 | AKill _ _ => 24 end.
+Definition script_cost (p : list cact) : nat := list_sum (map act_cost p).
+Definition spec_cost (x : list cact * N) : nat := 24 + script_cost (fst x).
 Definition cmd_cost (c : cmd) : nat :=
   match c with
-  | CAsync w _ => 24 + w
+  | CAsync p _ => 24 + script_cost p
   | CPipe l _ => list_sum (map spec_cost l) + 8 * length l + 13
   | CWait _ => 10
   | CProbe => 3
